@@ -67,7 +67,7 @@ CANON = [
     # elements
     (r"meshele\[#\]\.p\[(\d)\]", r"p\1"), (r"(elm|e)\.p\[(\d)\]", r"p\2"),
     (r"meshele\[#\]\.lbl", "lbl"), (r"(elm|e)\.lbl", "lbl"),
-    (r"meshele\[#\]\.e\[(\d)\]", r"e\1"), (r"elm\.e\[(\d)\]", r"e\1"),
+    (r"meshele\[#\]\.e\[(\d)\]", r"e\1"), (r"elm\.e\[(\d)\]", r"e\1"), (r"edgeMarker\[(\d)\]", r"e\1"),
     (r"meshele\[#\]\.Jprev", "Jprev"), (r"elm\.Jprev", "Jprev"),
     # conductors (electrostatics / heat flow)
     (r"L\.V\[NumNodes\+#\]", "cond.V"), (r"circuit->V", "cond.V"),
@@ -657,7 +657,7 @@ def fpproc_section(body, mode, what, tables, stale):
             m = re.fullmatch(r"blocklist\[i\]\.Case\s*=\s*j", st)
             if m:
                 name = "circuits"; k += 1; continue
-            if re.fullmatch(r"mnode\.A\.im\s*=\s*0|elm\.blk\s*=\s*blocklist\[elm\.lbl\]\.BlockType|int bc", st):
+            if re.fullmatch(r"mnode\.A\.im\s*=\s*0|elm\.blk\s*=\s*blocklist\[elm\.lbl\]\.BlockType|int bc|int edgeMarker\[3\]", st):
                 k += 1; continue
             if TOUCHES.search(st):
                 raise TranslateError("%s: statement that reads the file not understood: %r" % (what, st))
@@ -1164,6 +1164,10 @@ def emit(T):
     L.append("Definition sol_age_pairs : list (string * list field * list field) :=\n  [%s]." %
              ";\n   ".join("(%s, r_fpproc_age_%s, w_fsolver_%s_age_%s)" % (cq("magnetics_" + m + "/" + k), k, m, k)
                            for m in ("static", "harmonic") for k in ("params", "quad")))
+    L.append("(* whole .ans hand-offs: sections and air-gap block *)")
+    L.append("Definition sol_ans_pairs : list ans_pair :=\n  [%s]." %
+             ";\n   ".join("(%s, r_fpproc_%s, w_fsolver_%s, r_fpproc_age_params, w_fsolver_%s_age_params, r_fpproc_age_quad, w_fsolver_%s_age_quad)"
+                           % (cq("magnetics_" + m), m, m, m, m) for m in ("static", "harmonic")))
     # (solver, load table, write table of each writer of that solver)
     lw = []
     for solver in ("esolver", "hsolver", "fsolver"):
